@@ -41,7 +41,7 @@ func init() {
 }
 
 var c11HeldKinds = []string{"read", "stat", "clunk", "remove", "walknew", "attach", "open", "create"}
-var c11Cuts = []string{"close", "reset", "writefail", "midframe", "unread"}
+var c11Cuts = []string{"close", "reset", "writefail", "midframe", "unread", "unread+tversion"}
 
 func c11Cases(tier string, seed int64) []core.Case {
 	var cases []core.Case
@@ -383,6 +383,23 @@ func c11One(res *core.Result, seed int64, hi, maxpend int, dotu bool, cut, nheld
 		}
 		_ = v.Send(ms...)
 		waitFor(time.Second, func() bool { return v.Cli.Queued() >= 40 })
+		time.Sleep(300 * time.Microsecond)
+		v.Hangup()
+		v.PauseReads(false)
+	case "unread+tversion":
+		// as above, and a Tversion (a session reset, handled on the connection's reader itself) is waiting behind the
+		// unread replies when the client goes away
+		v.PauseReads(true)
+		v.Cli.Cap = 40
+		var ms []*wire.Msg
+		for i := 0; i < 4; i++ {
+			tag++
+			ms = append(ms, &wire.Msg{Type: wire.Tstat, Tag: tag, Fid: 99})
+		}
+		_ = v.Send(ms...)
+		waitFor(time.Second, func() bool { return v.Cli.Queued() >= 40 }) // the writer is stuck on an unread reply
+		_ = v.Send(&wire.Msg{Type: wire.Tversion, Tag: wire.NOTAG, Msize: 8192, Version: "9P2000"})
+		waitFor(time.Second, func() bool { return v.SrvE.Queued() == 0 })
 		time.Sleep(300 * time.Microsecond)
 		v.Hangup()
 		v.PauseReads(false)
